@@ -93,7 +93,11 @@ func c05Body(depth int) mc.Body {
 		})
 		tick := func() time.Time { g.clock++; return time.Unix(0, g.clock) }
 
+		doers := map[string]func() error{}
 		send := func(q c05Req) error {
+			if f, ok := doers[q.desc]; ok {
+				return f() // a composite client helper instead of a single request
+			}
 			cp := append(data.Points{}, q.pts...)
 			if q.edge {
 				return client.SendPoints(inst.Nc, client.SubjectEdgePoints(q.node, q.parent), cp, true)
@@ -147,6 +151,27 @@ func c05Body(depth int) mc.Body {
 			for pos := 0; pos < 3; pos++ {
 				m = append(m, c05Req{fmt.Sprintf("node points on A with NaN at position %d", pos), "nan-node-point", false, "A", "", mk(pos)})
 				m = append(m, c05Req{fmt.Sprintf("node points on the root with NaN at position %d", pos), "nan-node-point", false, root, "", mk(pos)})
+			}
+			// the client helpers that move / mirror a node, aimed below one of the node's own descendants: the
+			// helper as a whole must fail and leave nothing behind (a move is two requests)
+			for e, del := range g.edges {
+				p, c := e[0], e[1]
+				if del {
+					continue
+				}
+				for _, d := range universe {
+					if d == c || d == root || !g.isAncestorOrSelf(c, d) {
+						continue
+					}
+					if _, exists := g.edges[[2]string{d, c}]; exists {
+						continue
+					}
+					pp, cc, dd := p, c, d
+					mv, mr := fmt.Sprintf("MoveNode(%s from %s to its descendant %s)", cc, pp, dd), fmt.Sprintf("MirrorNode(%s below its descendant %s)", cc, dd)
+					doers[mv] = func() error { return client.MoveNode(inst.Nc, cc, pp, dd, "mover") }
+					doers[mr] = func() error { return client.MirrorNode(inst.Nc, cc, dd, "mover") }
+					m = append(m, c05Req{mv, "cycle", true, cc, dd, nil}, c05Req{mr, "cycle", true, cc, dd, nil})
+				}
 			}
 			// a new edge below the root sentinel (a second root) without node type, for an existing and for a new node
 			for _, n := range []string{"A", "Z9"} {
@@ -352,7 +377,7 @@ func checkC05(r *mc.Report, thorough bool) {
 		depth = 4
 	}
 	r.Explore(mc.Config{Name: fmt.Sprintf("graph-states-d%d", depth), Prune: true, SplitDepth: 2, StopAfterViolations: 12,
-		Rule: fmt.Sprintf("explicit-state search over graph states reached by %d legal writes (create/delete/undelete any of the 9 edges among root,A,B,C in either direction, node points), states = (edge set with tombstones, nodes with points, remaining depth); in EVERY new state the whole menu of must-be-refused requests is executed: self edges, root tombstone (value 1 alone / in a batch; values 3, 2, 0.5, -1, -2), new edge without node type (also below the root sentinel), every edge that would close a cycle through live or deleted edges (incl. through the root), NaN at each position of node-point and edge-point batches, NaN in points that carry a tombstone count; after each: error reply, the root query still names the same root, full snapshot unchanged, nothing on up.>, follow-up write+read answered", depth)},
+		Rule: fmt.Sprintf("explicit-state search over graph states reached by %d legal writes (create/delete/undelete any of the 9 edges among root,A,B,C in either direction, node points), states = (edge set with tombstones, nodes with points, remaining depth); in EVERY new state the whole menu of must-be-refused requests is executed: self edges, root tombstone (value 1 alone / in a batch; values 3, 2, 0.5, -1, -2), new edge without node type (also below the root sentinel), every edge that would close a cycle through live or deleted edges (incl. through the root), client.MoveNode / MirrorNode of a node below one of its own descendants, NaN at each position of node-point and edge-point batches, NaN in points that carry a tombstone count; after each: error reply, the root query still names the same root, full snapshot unchanged, nothing on up.>, follow-up write+read answered", depth)},
 		c05Body(depth))
 	sh.CleanupTemplate()
 	r.Assume("reference graph: an edge parent>child is cyclic iff parent==child or child is an ancestor of parent through any (live or deleted) edges")
